@@ -252,4 +252,10 @@ class MachineLogic(Generic[TContext, TEvent]):
                 continue
 
             registry[name] = bound
+            # 🔤 Also reachable under the camelCase spelling, like functions
+            #    found by auto-discovery: a config naming `doIt` binds a
+            #    method called `do_it` instead of failing at first use.
+            parts = name.split("_")
+            alias = parts[0] + "".join(p.title() for p in parts[1:])
+            registry.setdefault(alias, bound)
             logger.debug("🧬 Auto-registered subclass method '%s'.", name)
